@@ -163,6 +163,7 @@ func C03(t *rapid.T) *world.Scenario {
 		if swr {
 			rq.ReuseReq = true
 		}
+		MaybeOddForm(t, "odd"+itoa(int64(len(sc.Steps))), rq, 5)
 		return ReqStep(rq)
 	}
 	sc.Steps = append(sc.Steps, mk("GET", a, nil))
